@@ -17,6 +17,13 @@ def run(v, tier, seed, replay=None):
     for k in range(8 if tier == 'quick' else 40):
         objs = [g.obj(rng.choice(pool)) for _ in range(rng.randrange(1, 8))]
         sess.append('%d %d %d' % (rng.choice([0, 1, 6, 9]), rng.choice([33, 100, 1000, 0x20000]), rng.choice([0, 1])) + ''.join(' | ' + o for o in objs))
+    # an application-constructed object of EVERY class, nothing set (a member without initialiser that is written carries
+    # whatever the allocation held), and one with a few members set
+    names = sorted(n for n, c in meta['classes'].items() if c.get('isobj') and c.get('concrete') and c.get('has_default_ctor') and n != 'LogContainer')
+    for k in range(0, len(names), 30):
+        part = names[k:k + 30]
+        sess.append('0 131072 0' + ''.join(' | %d' % meta['classes'][n]['idx'] for n in part))
+        sess.append('6 4096 0' + ''.join(' | ' + g.obj(n) for n in part))
     model = codec.run_model(mexe, ['FW ' + s for s in sess])
     lines = ['FS 0 ' + s for s in sess]
     # the same sessions: alone, repeated in one process after other activity, on memory pre-filled with different patterns, under perturbed schedules
@@ -51,7 +58,7 @@ def run(v, tier, seed, replay=None):
         'obligations': info['obligations'], 'discharged': info['discharged'], 'checker_cmd': info['checker_cmd'],
         'trusted_base': TRUSTED + info['print_assumptions'], 'failed_obligations': info['failed'],
         'evaluations': len(sess) * len(variants), 'distinct_nontrivial': len(sess),
-        'rule': 'write sessions over classes with padding, unions and reserved members (serial events, AppText, ...) at several levels / container sizes: each is run alone, again in the same process after other sessions, on allocations pre-filled with 0x00 / 0xff / 0xa5 (ASan malloc_fill_byte), and under seeded schedule perturbation; every file must be byte-identical to the extracted model. Non-trivial = distinct session.',
+        'rule': 'write sessions over classes with padding, unions and reserved members (serial events, AppText, ...) at several levels / container sizes, plus sessions writing one default-constructed and one API-populated object of every class: each is run alone, again in the same process after other sessions, on allocations pre-filled with 0x00 / 0xff / 0xa5 (ASan malloc_fill_byte), and under seeded schedule perturbation; every file must be byte-identical to the extracted model. Non-trivial = distinct session.',
         'variants': [n for n, _ in variants], 'differences': nbad, 'samples': ['FS 0 ' + s[:100] for s in sess[:3]],
         'theorems': ['C14_schedule_independent', 'C14_payload_config_independent', 'C14_stateless_write_path', 'C14_only_determined_bytes', 'C14_fresh_encodes_real_bytes'],
     })
